@@ -95,4 +95,194 @@ theorem exponentPhase_insert (c : Cfg) (o : POpts) (hG : GenStrip c o) (s : List
             refine ⟨_, rfl, g3, rfl, rfl, ?_, hNe⟩
             have := hR.valid; rw [h3.1] at this; exact this
 
+/-- **`parse_number`, from the stripped run back to the run with separators** -/
+theorem number_insert_gen (c : Cfg) (o : POpts) (hG : GenStrip c o) (hresI : Rescan c .integer)
+    (hresF : Rescan c .fraction) (s : List Nat) (hb256 : ∀ x ∈ s, x < 256) (hP : NoSepBeforeSign c s) (b b' : Bytes)
+    (hr : StripRel c s b b') (hv : b.index ≤ s.length) (hic : b.ic = 0) (hfc : b.fc = 0)
+    (hstart : (∀ x, getPrev s b.index = some x → c.isDigit x = false ∧ c.isSep x = false) ∨
+      (∀ x, s[b.index]? = some x → c.isSep x = false))
+    (hN : IntNormal c o s b) (p neg fv : Bool) (n' : Number) (cnt' : Nat)
+    (h' : parseNumber c p o b' neg fv = .ok (n', cnt')) (hcnt' : cnt' = (nonSep c s).length) :
+    ∃ n, parseNumber c p o b neg fv = .ok (n, s.length) ∧ NumRel c n n' := by
+  have hsl : b.slc = s := hr.1
+  have hvb : Bytes.Valid b := by unfold Bytes.Valid; rw [hsl]; exact hv
+  -- the integer phase
+  obtain ⟨dsI, eI, hRI, hconI, hint⟩ := integerPhase_left c o hG b hvb
+  obtain ⟨hNI, hFN⟩ := hN eI dsI hRI
+  have heI : eI.slc = s := by rw [hRI.slc]; exact hsl
+  have hvI : eI.index ≤ s.length := by have := hRI.valid; rw [hsl] at this; exact this
+  have hNIb : ∀ x, b.slc[eI.index]? = some x → c.isSep x = false := by rw [hsl]; exact hNI
+  unfold parseNumber at h' ⊢
+  simp only [hG.rel.debug, Bool.false_and, Bool.false_eq_true, if_false, bind, Except.bind] at h' ⊢
+  by_cases hzI : (c.requiredIntegerDigits && decide (dsI.length = 0)) = true
+  · exfalso
+    obtain ⟨h1, _, _⟩ := hRI.strip hr hNIb
+    rw [integerPhase_rel c hG.rel b' b' false hr.noSep (prefixPhase_none c hG.noPrefix b')] at h'
+    unfold intClosed at h'
+    simp only [h1, hG.format, Bool.true_and, hzI, if_true] at h'
+    cases h'
+  · have hzI' : (c.requiredIntegerDigits && decide (dsI.length = 0)) = false := by simpa using hzI
+    obtain ⟨hipR, hrI⟩ := integerPhase_right c o hG s b b' eI dsI hRI hr hNIb hzI'
+    rw [hipR] at h'
+    rw [hint, if_neg hzI]
+    simp only at h' ⊢
+    -- the fraction phase: both runs
+    have hNIn : Normal c eI := by intro x hx; rw [heI] at hx; exact hNI x hx
+    have hfracBoth : ∃ fp fp', fractionPhase c o eI (foldMantissa c.mantissaRadix 0 dsI) = .ok fp ∧
+        fractionPhase c o (adv c .integer dsI.length b') (foldMantissa c.mantissaRadix 0 dsI) = .ok fp' ∧
+        FracLeft c o b eI (foldMantissa c.mantissaRadix 0 dsI) fp ∧
+        StripRel c s fp.byte fp'.byte ∧ fp'.mantissa = fp.mantissa ∧ fp'.nAfterDot = fp.nAfterDot ∧
+        fp'.exponent = fp.exponent ∧ fp'.fraction = fp.fraction.map (nonSep c) ∧
+        fp.byte.slc = s ∧ fp.byte.index ≤ s.length ∧ (∀ x, s[fp.byte.index]? = some x → c.isSep x = false) ∧
+        ExpNormal c o s fp.byte := by
+      have hvIv : Bytes.Valid eI := by unfold Bytes.Valid; rw [heI]; exact hvI
+      rcases fractionPhase_left c o hG eI (foldMantissa c.mantissaRadix 0 dsI) hvIv with ⟨hnodp, hfr⟩ | ⟨hdp, dsF, eF, hRF, hconF, hfr⟩
+      · have hne : s[eI.index]? ≠ some o.dp := by
+          intro hh; simp [Bytes.firstIsCased, Bytes.first, heI, hh] at hnodp
+        have hFL : FracLeft c o b eI (foldMantissa c.mantissaRadix 0 dsI) ⟨eI, foldMantissa c.mantissaRadix 0 dsI, 0, 0, none, false⟩ :=
+          Or.inl ⟨rfl, hnodp⟩
+        obtain ⟨_, _, fp', g1, g2, g3, g4, g5, g6⟩ := frac_right c o hG s b eI (adv c .integer dsI.length b')
+          (foldMantissa c.mantissaRadix 0 dsI) _ hsl heI hvI hFL hrI hNI (fun _ => hNI)
+        exact ⟨_, fp', hfr, g1, hFL, g2, g3, g4, g5, g6, heI, hvI, hNI, hFN.2 hne⟩
+      · rw [heI] at hdp
+        obtain ⟨hNF, hEN⟩ := hFN.1 hdp eF dsF hRF
+        have hslF : eF.slc = s := by rw [hRF.slc]; exact heI
+        have hvF : eF.index ≤ s.length := by have := hRF.valid; simp only [heI] at this; exact this
+        have hN2 : ∀ x, eI.slc[eF.index]? = some x → c.isSep x = false := by
+          intro x hx; rw [heI] at hx; exact hNF x hx
+        by_cases hzF : (c.requiredFractionDigits && decide (dsF.length = 0)) = true
+        · -- then the stripped run fails with EmptyFraction
+          exfalso
+          have hr1 := hrI.step1 o.dp (by rw [heI]; exact hdp) hG.sepDp
+          obtain ⟨q1, _, _⟩ := hRF.strip hr1 hN2
+          simp only at q1
+          have hf : (adv c .integer dsI.length b').firstIsCased o.dp = true := by
+            have hf1 := hrI.first hNIn
+            unfold Bytes.firstIsCased
+            rw [hf1]
+            simp only [Bytes.first, heI, hdp, beq_self_eq_true]
+          rw [fractionPhase_rel c hG.rel o _ _ hrI.noSep] at h'
+          unfold fracClosed at h'
+          simp only [hf, if_true, q1, hG.format, Bool.true_and, hzF] at h'
+          cases h'
+        · have hzF' : (c.requiredFractionDigits && decide (dsF.length = 0)) = false := by simpa using hzF
+          rw [if_neg hzF] at hfr
+          have hFL : FracLeft c o b eI (foldMantissa c.mantissaRadix 0 dsI) ⟨eF, foldMantissa c.mantissaRadix (foldMantissa c.mantissaRadix 0 dsI) dsF,
+              dsF.length, scaleVal c (-(dsF.length : Int)), some (slice b.slc (eI.index + 1) eF.index), true⟩ :=
+            Or.inr ⟨dsF, eF, by rw [hsl]; exact hdp, hRF, by simpa [heI, hsl] using hconF, hzF', rfl⟩
+          obtain ⟨_, _, fp', g1, g2, g3, g4, g5, g6⟩ := frac_right c o hG s b eI (adv c .integer dsI.length b')
+            (foldMantissa c.mantissaRadix 0 dsI) _ hsl heI hvI hFL hrI hNI (fun _ => hNF)
+          refine ⟨_, fp', ?_, g1, hFL, g2, g3, g4, g5, g6, hslF, hvF, hNF, hEN⟩
+          rw [hfr]; simp only [heI, hsl]
+    obtain ⟨fp, fp', hfpL, hfpR, hFL, hrF, f1, f2, f3, f4, hfps1, hfps2, hNF, hEN⟩ := hfracBoth
+    rw [hfpR] at h'
+    rw [hfpL]
+    simp only at h' ⊢
+    have hNFn : Normal c fp.byte := by intro x hx; rw [hfps1] at hx; exact hNF x hx
+    have hcc : Bytes.currentCount c fp'.byte = Bytes.currentCount c fp.byte := by
+      simp only [Bytes.currentCount, hG.bytes, Bool.false_eq_true, if_false, hrF.2.2.2.1, hrF.2.2.2.2.1, hrF.2.2.2.2.2]
+    have hfi : ∀ v cased, fp'.byte.firstIs v cased = fp.byte.firstIs v cased := by
+      intro v cased; simp [Bytes.firstIs, Bytes.firstIsCased, Bytes.firstIsUncased, hrF.first hNFn]
+    simp only [f1, f2, f3, f4, hfi, hcc] at h'
+    -- the mantissa check
+    by_cases hm : (c.requiredMantissaDigits && (decide (dsI.length + fp.nAfterDot = 0) ||
+        c.feats.format && decide (Bytes.currentCount c fp.byte = 0))) = true
+    · exfalso
+      rw [if_pos hm] at h'
+      cases hpk : peek c .integer b' with
+      | error er => rw [hpk] at h'; cases h'
+      | ok r => rw [hpk] at h'; simp only at h'; split at h' <;> cases h'
+    · rw [if_neg hm] at h' ⊢
+      -- the exponent phase
+      cases hepR : exponentPhase c (fp.byte.firstIs o.exp (c.caseSensitiveExponent && c.feats.format)) fp'.byte
+          (fp.fraction.map (nonSep c)) fp.exponent with
+      | error er => rw [hepR] at h'; cases h'
+      | ok ep' =>
+        rw [hepR] at h'
+        simp only [suffixPhase_none c hG.noSuffix] at h' ⊢
+        obtain ⟨ep, hepL, hrE, e1, e2, hve, hNe⟩ := exponentPhase_insert c o hG s _ fp.byte fp'.byte hrF hNFn
+          (fun hh => firstIs_some _ _ _ hh) hfps2 (hP.at _ hfps1) (fun hh => hEN hh) fp.fraction fp.exponent ep' hepR
+        rw [hepL]
+        simp only [e1, e2] at h' ⊢
+        have hexp : (if (c.feats.format && !c.requiredMantissaDigits && decide (dsI.length + fp.nAfterDot = 0)) = true
+            then (0 : Int) else ep.exponent) = ep.exponent := by
+          simp only [hG.reqMant, Bool.not_true, Bool.and_false, Bool.false_and, Bool.false_eq_true, if_false]
+        rw [hexp] at h' ⊢
+        -- the end positions
+        by_cases hle : dsI.length + fp.nAfterDot ≤ u64Step c.feats c.mantissaRadix
+        · rw [if_pos hle] at h' ⊢
+          simp only [pure, Except.pure, Except.ok.injEq, Prod.mk.injEq] at h'
+          obtain ⟨rfl, hc2⟩ := h'
+          have hend : ep.byte.index = s.length :=
+            end_of_strip c s ep.byte.index hve hNe (by rw [← hrE.2.2.1, hc2, hcnt'])
+          refine ⟨_, by simp only [pure, Except.pure, hend]; rfl, ?_⟩
+          simp only [NumRel, hsl, and_self]
+        · rw [if_neg hle] at h' ⊢
+          have hcE : cnt' = ep'.byte.index := manyDigitsPhase_count c o neg _ _ _ _ _ _ _ n' cnt' h'
+          have hend : ep.byte.index = s.length :=
+            end_of_strip c s ep.byte.index hve hNe (by rw [← hrE.2.2.1, ← hcE, hcnt'])
+          -- the many-digits path on both sides
+          have hnext : ∀ (e : Bytes), (∀ x, s[e.index]? = some x → c.isSep x = false) →
+              (∀ x, s[e.index]? = some x → charToDigit x c.mantissaRadix = none) →
+              ∀ x, s[e.index]? = some x → c.isDigit x = false ∧ c.isSep x = false := by
+            intro e hn hs x hx
+            exact ⟨isDigit_of_stop c x (hb256 x (List.mem_of_getElem? hx)) hG.radixM (hs x hx), hn x hx⟩
+          have hokI : SliceOK c .integer (slice s b.index eI.index) := by
+            have := sliceOK_of_run hresI hRI (fun hc => (hconI hc).2)
+              (by intro hc; simp [Bytes.iterCount, hc, hic]) hvb (by rw [hsl]; exact hstart)
+              (by rw [hsl]; exact hnext eI hNI (by intro x hx; exact hRI.stop x (by rw [hsl]; exact hx)))
+            rw [hsl] at this; exact this
+          have hfcI : eI.fc = 0 := by rw [hRI.eq]; simp [advS, hfc]
+          have hokF : ∀ fd, fp.fraction = some fd → SliceOK c .fraction fd := by
+            intro fd hfd
+            rcases hFL with ⟨rfl, _⟩ | ⟨dsF, eF, hdp, hRF, hconF, _, rfl⟩
+            · cases hfd
+            · simp only [Option.some.injEq] at hfd
+              subst hfd
+              rw [hsl] at hdp
+              have hvF : Bytes.Valid ({ eI with index := eI.index + 1 } : Bytes) := by
+                unfold Bytes.Valid; simp only [heI]
+                have := (List.getElem?_eq_some_iff.mp hdp).1; omega
+              have := sliceOK_of_run hresF hRF (fun hc => by simpa [heI, hsl] using (hconF hc).2)
+                (by intro hc; simp [Bytes.iterCount, hc, hfcI]) hvF
+                (Or.inl (by
+                  intro x hx
+                  simp only [getPrev, heI, Nat.add_sub_cancel, Nat.succ_ne_zero, if_false, hdp, Option.some.injEq] at hx
+                  subst hx
+                  exact ⟨isDigit_of_stop c _ (hb256 _ (List.mem_of_getElem? hdp)) hG.radixM hG.dpDigit, hG.sepDp⟩))
+                (by
+                  simp only [heI]
+                  exact hnext eF hNF (by intro x hx; exact hRF.stop x (by simp only [heI]; exact hx)))
+              simpa [heI, hsl] using this
+          have hfracM : s[eI.index]? = some o.dp → ∃ dsF eF,
+              Run c .fraction c.mantissaRadix { eI with index := eI.index + 1 } eF dsF ∧
+              (c.iterContiguous .fraction = true → NoSep c (slice s (eI.index + 1) eF.index)) ∧
+              (∀ x, s[eF.index]? = some x → c.isSep x = false) := by
+            intro hdp
+            rcases hFL with ⟨rfl, hnodp⟩ | ⟨dsF, eF, _, hRF, hconF, _, rfl⟩
+            · exfalso
+              simp [Bytes.firstIsCased, Bytes.first, heI, hdp] at hnodp
+            · exact ⟨dsF, eF, hRF, fun hc => by simpa [hsl] using (hconF hc).2, hNF⟩
+          have hL := manyDigits_left c o hG s neg ⟨false, b, eI, foldMantissa c.mantissaRadix 0 dsI, dsI.length,
+            slice b.slc b.index eI.index⟩ fp ep (dsI.length + fp.nAfterDot) (u64Step c.feats c.mantissaRadix) ep.exponent
+            ep.byte.index eI dsI hsl hvb hRI (fun hc => by simpa [hsl] using (hconI hc).2) hNI hfracM
+            (by simpa [hsl] using hokI) hokF
+          rw [hL]
+          have hnS : NoSep c (nonSep c s) := nonSep_noSep c s
+          rw [manyDigits_rel c hG.rel (nonSep c s) hnS o neg _ _ _ _ _ _ _ hr.2.1 (nonSep_noSep c _)
+            (by
+              intro fd hfd
+              rw [f4] at hfd
+              cases hfr : fp.fraction with
+              | none => rw [hfr] at hfd; cases hfd
+              | some x =>
+                rw [hfr] at hfd
+                simp only [Option.map_some, Option.some.injEq] at hfd; rw [← hfd]; exact nonSep_noSep c _)] at h'
+          simp only [hr.2.2.1, hG.format, hG.bytes, Bool.not_false, Bool.and_true, f1, f4, e1] at h' ⊢
+          rw [manyClosed_endIdx _ _ _ _ _ _ _ _ _ _ _ _ _ _ ep'.byte.index ep.byte.index, h']
+          obtain ⟨g1, g2, _⟩ := manyClosed_fields _ _ _ _ _ _ _ _ _ _ _ _ _ _ _ _ _ h'
+          refine ⟨_, by simp only [Except.map, hend]; rfl, ?_⟩
+          simp only at g1 g2
+          exact ⟨rfl, rfl, rfl, rfl, g1, g2, rfl⟩
+
 end LexVerif.Proof.Sep
